@@ -287,15 +287,19 @@ Pause ==
     /\ UNCHANGED <<rep, clock, ev, pending, bound, incl, seg, executed, prog, initOps, ann, notif, nrep, premature, ncmd, strat>>
 
 (* end_replication() at quiescence on an initialised, not yet ended simulator *)
-EndReplication ==
-    /\ "EndReplication" \in Cmds
-    /\ CmdOK /\ ncmd' = ncmd + 1 /\ rs \in {"INITIALIZED", "STOPPED"}
+EndReplicationEffect ==
     /\ rs' = "ENDED" /\ rep' = "ENDED" /\ pending' = {}
     /\ clock' = IF clock < EndT THEN EndT ELSE clock
     /\ due' = <<[ty |-> "END_REPLICATION", ts |-> clock']>>
     /\ premature' = TRUE
     /\ op' = [a |-> "EndReplication", arg |-> 0, res |-> "ok"]
     /\ UNCHANGED <<ev, bound, incl, mode, seg, executed, prog, initOps, ann, notif, nrep, strat>>
+
+EndReplication ==
+    /\ "EndReplication" \in Cmds
+    /\ CmdOK /\ ncmd' = ncmd + 1
+    /\ IF rs \notin {"INITIALIZED", "STOPPED"} THEN Refuse("EndReplication", 0)     \* nothing to end: uninitialised or already ended
+       ELSE EndReplicationEffect
 
 Cleanup ==
     /\ "Cleanup" \in Cmds
